@@ -30,6 +30,8 @@ def main():
     reps = 40 if a.tier == "quick" else 150
     inv_json = os.path.join(a.work, "invtab.json")
     tab = json.load(open(inv_json)) if os.path.exists(inv_json) else None
+    sp_json = os.path.join(a.work, "invspecial.json")
+    special = json.load(open(sp_json)) if os.path.exists(sp_json) else None
     # ---- per kind
     bad_kinds = set()
     for kind in VOCAB:
@@ -55,6 +57,26 @@ def main():
                 if not ok:
                     res.fail(f"corr:inverse_gate:{g.name}", "inverse_gate differs from the extracted inverse table",
                              {"gate": describe(QuantumCircuit(n, gates=[g])), "impl": describe(QuantumCircuit(n, gates=[ig])), "model": t})
+            # correspondence with the two special branches extracted by translate/inverse.py
+            if special is not None and g.name == "PauliRotation":
+                sc = special["PauliRotation"]["angle_scale"]
+                ok = (ig.name == "PauliRotation" and tuple(ig.target_indices) == tuple(g.target_indices)
+                      and tuple(ig.pauli_ids) == tuple(g.pauli_ids) and len(ig.params) == 1 and ig.params[0] == sc * g.params[0])
+                if not ok:
+                    res.fail("corr:inverse_gate:PauliRotation", "inverse_gate differs from the extracted branch",
+                             {"gate": describe(QuantumCircuit(n, gates=[g])), "impl": describe(QuantumCircuit(n, gates=[ig])),
+                              "model": special["PauliRotation"]})
+            if special is not None and g.name == "UnitaryMatrix":
+                M = np.array(g.unitary_matrix, dtype=complex)
+                if special["UnitaryMatrix"]["transpose"]:
+                    M = M.T
+                if special["UnitaryMatrix"]["conj"]:
+                    M = M.conj()
+                ok = (ig.name == "UnitaryMatrix" and tuple(ig.target_indices) == tuple(g.target_indices)
+                      and np.array_equal(np.array(ig.unitary_matrix, dtype=complex), M))
+                if not ok:
+                    res.fail("corr:inverse_gate:UnitaryMatrix", "inverse_gate differs from the extracted branch",
+                             {"gate": describe(QuantumCircuit(n, gates=[g])), "model": special["UnitaryMatrix"]})
     good_vocab = [k for k in VOCAB if (k if not k.startswith("UM") else "UnitaryMatrix") not in bad_kinds]
     # ---- inverse_circuit
     for _ in range(reps * 4):
